@@ -273,6 +273,12 @@ impl RADAU {
             }));
         }
         h = h.clamp(-hmax, hmax);
+        // A first step that already reaches xend is the last one
+        let mut last = false;
+        if (x + h * 1.0001 - xend) * posneg >= 0.0 {
+            h = xend - x;
+            last = true;
+        }
 
         // --- Declarations ---
 
@@ -307,7 +313,6 @@ impl RADAU {
         let mut hold = h;
         let mut hnew: Float;
         let mut hhfac: Float = h;
-        let mut last = false;
         let mut reject = false;
         let mut h_acc: Float = 0.0;
         let mut err_acc: Float = 0.0;
